@@ -389,7 +389,7 @@ def apply(d):
     for f in d["fns"]:
         if f["path"] in known or not f.get("local", True):
             continue
-        if f["kind"] not in ("Fn", "AssocFn") or f.get("derived") or f.get("from_expansion") or f.get("root"):
+        if f["kind"] not in ("Fn", "AssocFn") or f.get("derived") or f.get("root") or (f.get("from_expansion") and "_::" in f["path"]):
             continue
         if len(byp[f["path"]]) != 1 or len(f["blocks"]) > MAX_CALLEE_BLOCKS:
             continue
